@@ -50,3 +50,26 @@ Example C14_headers_literal_refuted :
     exists i p, nth_error ps i = Some p /\
       firstn 12 (fst p) <> header_of m (Nat.eqb (S i) (length ps)) (snd p).
 Proof. exact packets_headers_counterexample. Qed.
+
+(* ---- the model's comparisons are the ones the source writes now (Gen/Sites.v is regenerated from /repo on every run; the conjuncts,
+   with the model line each stands for, are spelled out in Proofs/Sites_ops.v) ---- *)
+From ZC Require Import Gen.Sites Proofs.Sites_ops.
+Theorem C14_site_ops : sites_C14_ops. Proof. exact sites_C14_ops_ok. Qed.
+Print Assumptions C14_site_ops.
+From ZC Require Import Proofs.Sites_C14.
+Theorem C14_site_check_limit : forall st start,
+  check_limit_or_rollback st start =
+  let limit := if e_allow_long st then C_MAX_MSG_ABSOLUTE else C_MAX_MSG_TYPICAL in
+  if sop_apply site_enc_fits (e_size st) limit
+  then ({| e_rev := e_rev st; e_size := e_size st; e_names := e_names st; e_allow_long := false |}, true)
+  else ({| e_rev := e_rev start; e_size := e_size start;
+           e_names := filter (fun ni => negb (sop_apply site_enc_rollback_names (snd ni) (e_size start))) (e_names st);
+           e_allow_long := false |}, false).
+Proof. exact tie_check_limit. Qed.
+Theorem C14_site_character_string : forall st b,
+  write_character_string st b =
+  let n := Z.of_nat (length b) in
+  if sop_apply site_enc_string_limit n site_enc_string_limit_rhs then Raise NamePartTooLong
+  else bind (write_byte st n) (fun st' => Ok (write_string st' b)).
+Proof. exact tie_character_string. Qed.
+Print Assumptions C14_site_check_limit. Print Assumptions C14_site_character_string.
